@@ -27,18 +27,14 @@ Print Assumptions C08_once_each.
 (* original order (pre-order sequence of the result is a subsequence of the original one)
    and original ancestry (the result is obtained by deleting branches and lifting nothing) *)
 Theorem C08_subforest : forall v f, emb (F v f) f /\ sublist (ids (F v f)) (ids f).
-Proof. intros v f. exact (conj (F_emb v f) (F_order v f)). Qed.
+Proof. exact F_subforest. Qed.
 Print Assumptions C08_subforest.
 
 Theorem C08_nodes_and_parents_preserved : forall v f,
   (forall t', In t' (pre_f (F v f)) ->
      exists t, In t (pre_f f) /\ rid t = rid t' /\ rinfo t = rinfo t' /\ emb (rch t') (rch t)) /\
   (forall p c, child_in (F v f) p c -> child_in f p c).
-Proof.
-  intros v f. split.
-  - exact (emb_node _ _ (F_emb v f)).
-  - intros p c. exact (emb_child _ _ p c (F_emb v f)).
-Qed.
+Proof. exact F_nodes_parents. Qed.
 Print Assumptions C08_nodes_and_parents_preserved.
 
 (* ---- the in-place form -------------------------------------------- *)
@@ -52,12 +48,31 @@ Theorem C08_inplace_flags : forall v s f, NoDup (ids f) ->
 Proof. exact ip_visit_is_F. Qed.
 Print Assumptions C08_inplace_flags.
 
+(* Node.filter on the branch below node n (the start node itself is not asked):
+   its child list is filtered as a forest, everything outside the branch stays *)
+Theorem C08_branch_inplace : forall v n f, NoDup (ids f) ->
+  map (upd_at n (filter_inplace v)) f = map (upd_at n (F v)) f.
+Proof. exact branch_inplace_is_F. Qed.
+Print Assumptions C08_branch_inplace.
+
+Theorem C08_branch_inplace_nodes : forall v n f t, NoDup (ids f) -> In t (pre_f f) -> rid t = n ->
+  forall m, In m (ids (map (upd_at n (filter_inplace v)) f)) <->
+            (In m (ids f) /\ ~ In m (ids (rch t))) \/ kept v (rch t) m.
+Proof. exact branch_inplace_nodes. Qed.
+Print Assumptions C08_branch_inplace_nodes.
+
 (* ---- the copying form (Tree.filtered, Tree.copy(predicate=), Node.…) ---- *)
 (* proved: F plus exactly the D24 leaves, modulo node identity; for every
    first allocation index (tree start: 1, branch start: 2, add_self=False: 1) *)
 Theorem C08_copy_is_dbl_F : forall v f nx, same_modulo_ids (fst (add_filtered v f nx)) (dbl v (F v f)).
 Proof. exact add_filtered_is_dbl_F. Qed.
 Print Assumptions C08_copy_is_dbl_F.
+
+(* Node.filtered / Node.copy(predicate=) of a branch: the start node on top *)
+Theorem C08_branch_copy : forall v t,
+  same_modulo_ids [T 1 (rinfo t) (fst (add_filtered v (rch t) 2))] [T (rid t) (rinfo t) (dbl v (F v (rch t)))].
+Proof. exact branch_copy. Qed.
+Print Assumptions C08_branch_copy.
 
 Theorem C08_inplace_eq_copy_modulo_dbl : forall v f, NoDup (ids f) ->
   same_modulo_ids (filtered v f) (dbl v (filter_inplace v f)).
@@ -88,6 +103,33 @@ Proof.
 Qed.
 Print Assumptions C08_copy_refuted.
 
+(* ---- stop -------------------------------------------------------------- *)
+(* a stop answer among the reached nodes: the stopping node s is the last call,
+   and every kept node lies strictly before s in pre-order ... *)
+Theorem C08_stop_drops_the_rest : forall v f, has_stop v (reach v f) = true ->
+  exists a s b, ids f = a ++ s :: b /\ v s = VStop /\
+    calls v f = visited v f ++ [s] /\ incl (ids (F v f)) a.
+Proof. exact stop_drops_the_rest. Qed.
+Print Assumptions C08_stop_drops_the_rest.
+
+(* ... while everything accepted before it is kept *)
+Theorem C08_stop_keeps_accepted : forall v f, NoDup (ids f) ->
+  forall n, In n (visited v f) -> accepts (v n) = true -> In n (ids (F v f)).
+Proof. exact stop_keeps_accepted. Qed.
+Print Assumptions C08_stop_keeps_accepted.
+
+Theorem C08_no_stop : forall v f, has_stop v (reach v f) = false ->
+  calls v f = reach v f /\ visited v f = reach v f.
+Proof. exact no_stop_no_cut. Qed.
+Print Assumptions C08_no_stop.
+
+(* the calls of the predicate made by both scans (mirrored loops with their
+   stopped flags) are the reached nodes up to and including the stopping one:
+   nothing is asked below a skip / select answer or after a stop *)
+Theorem C08_calls : forall v f, af_calls v f = calls v f /\ ip_calls v f = calls v f.
+Proof. exact calls_spec. Qed.
+Print Assumptions C08_calls.
+
 (* ---- returned and raised signals ----------------------------------- *)
 Theorem C08_returned_raised_equal :
   (forall c, call_predicate (RRet c) = call_predicate (RRaise c)) /\
@@ -95,6 +137,27 @@ Theorem C08_returned_raised_equal :
   (forall r, classify_ip (call_predicate r) = classify_cp (call_predicate r)).
 Proof. exact (conj returned_raised_same (conj stop_iteration_is_stop classify_same)). Qed.
 Print Assumptions C08_returned_raised_equal.
+
+(* only the answers on the nodes of the forest matter *)
+Theorem C08_ext : forall v w f, (forall n, In n (ids f) -> v n = w n) -> F v f = F w f.
+Proof. exact F_ext. Qed.
+Print Assumptions C08_ext.
+
+(* a predicate given by what it does (returns / raises): in place (Node.filter's chain of
+   tests) = copying (_add_filtered's chain) modulo the D24 leaves; returning or raising a
+   signal makes no difference to either form *)
+Theorem C08_inplace_eq_copy_raw : forall (p : nat -> raw) f, NoDup (ids f) ->
+  same_modulo_ids (filtered (fun n => classify_cp (call_predicate (p n))) f)
+                  (dbl (fun n => classify_cp (call_predicate (p n))) (filter_inplace (fun n => classify_ip (call_predicate (p n))) f)).
+Proof. exact inplace_vs_copy_raw. Qed.
+Print Assumptions C08_inplace_eq_copy_raw.
+
+Theorem C08_returned_raised_same_result : forall (p q : nat -> raw) f, NoDup (ids f) ->
+  (forall n, In n (ids f) -> call_predicate (p n) = call_predicate (q n)) ->
+  filter_inplace (fun n => classify_ip (call_predicate (p n))) f = filter_inplace (fun n => classify_ip (call_predicate (q n))) f /\
+  same_modulo_ids (filtered (fun n => classify_cp (call_predicate (p n))) f) (filtered (fun n => classify_cp (call_predicate (q n))) f).
+Proof. exact raw_predicates_equal. Qed.
+Print Assumptions C08_returned_raised_same_result.
 
 (* ---- non-vacuity ---------------------------------------------------- *)
 Example C08_fixture_wellformed : NoDup (ids fixture).
@@ -119,5 +182,7 @@ Example C08_mixed :
   F mixed_v mixed = [nd 1 [nd 2 [nd 3 []; nd 4 []]; nd 5 []]; nd 8 []] /\
   filter_inplace mixed_v mixed = F mixed_v mixed /\
   map erase (filtered mixed_v mixed) = map erase [nd 1 [nd 2 [nd 3 []; nd 4 []]; nd 5 [nd 5 []]]; nd 8 [nd 8 []]] /\
-  calls mixed_v mixed = [1; 2; 5; 7; 8; 9].
+  calls mixed_v mixed = [1; 2; 5; 7; 8; 9] /\ visited mixed_v mixed = [1; 2; 5; 7; 8] /\
+  has_stop mixed_v (reach mixed_v mixed) = true /\
+  map (upd_at 1 (filter_inplace mixed_v)) mixed = [nd 1 [nd 2 [nd 3 []; nd 4 []]; nd 5 []]; nd 7 [nd 11 []]; nd 8 []; nd 9 []; nd 10 []].
 Proof. split; [apply nodupb_sound|]; vm_compute; repeat split; reflexivity. Qed.
